@@ -74,8 +74,7 @@ Finish(v, t, cached) ==
                 \* it: only the members of the RRset the signature covers are marked
                 stray |-> IF ~HasStray(arg.rr) THEN "none"
                           ELSE IF Deviation = "markGroup" THEN v ELSE "NotSecure"]
-    /\ estab' = (estab \/ (RrSignedGenuine(arg.rr) /\ SigSignedGenuine(arg.sig) /\ arg.key = "genuine"
-                           /\ InWindow(Inc, Exp, clk)))
+    /\ estab' = (estab \/ Establishes(arg, clk))
     /\ UNCHANGED ncall
     /\ pc' = "idle" /\ arg' = NoArg /\ res' = NoRes
 
@@ -173,7 +172,7 @@ Secure == last # NoCall /\ last.verdict = "Secure"
 C06_SecureOnlyGenuine ==
     Secure => /\ RrSignedGenuine(last.arg.rr) /\ RrBelongs(last.arg.rr)
               /\ SigSignedGenuine(last.arg.sig)
-              /\ (last.arg.key = "genuine" \/ estab)
+              /\ (HasZoneKey(last.arg.key) \/ estab)
 
 \* ... only while the validator's clock is inside [Inc, Exp] at the time of the call, cached
 \* or not (at the one clock value where RFC 1982 leaves the comparison undefined either way)
